@@ -270,7 +270,7 @@ pub fn run_case(c: &Case, out: &mut String, st: &mut Stats, snapshots: bool) -> 
                         setempty,
                         if n > 0 { "exact" } else { "set" },
                         s + 1,
-                        n,
+                        n.min(i32::MAX as usize),
                         res,
                         pos_json(pos),
                         io_json(&src.take_log()),
